@@ -91,3 +91,22 @@ prop("C09", ["contracts.c09_pdocfg", "contracts.c15_pdo"], ["PdoSave", "PdoSaveR
               "the configuration only sets optional parameters whose sub-entries exist in the dictionary"],
      not_decided=["PDO numbers 1..512 / PdoMaps construction; configuration taken from the dictionary (from_od=True); "
                   "devices with a fixed-length mapping array (the _fill_map work-around)"])
+
+prop("C12", ["contracts.c01_client", "contracts.c12_blockdown"], ["BdInit", "BdSend", "BdWrite", "BdClose", "BdRetransmit"],
+     bounded=[("bounded.blocktransfer", "block_download")],
+     assumed=["SdoClient request_response / read_response / send_request / abort as seen by the stream (env/blockclient.py)",
+              "binascii.crc_hqx is a byte-wise fold (uninterpreted step function); the CRC-16 polynomial is CPython's",
+              "_retransmit is contracted for sub-blocks of 3 and 5 full segments with every acknowledged count (enumerated)"],
+     not_decided=["the end-to-end claim (a conformant block server commits exactly the payload for every payload and block-size "
+                  "sequence, single loss repaired) is only covered by the bounded stand-in against a reference server",
+                  "arbitrary multi-loss patterns; liveness of retransmission; termination of the mutual recursion write/send/_block_ack/_retransmit"])
+
+prop("C13", ["contracts.c01_client", "contracts.c12_blockdown", "contracts.c13_blockup"],
+     ["BuInit", "BuRead", "BuAckBlock", "BuRetransmit", "BuClose"],
+     bounded=[("bounded.blocktransfer", "block_upload")],
+     assumed=["SdoClient request_response / read_response / send_request / abort as seen by the stream (env/blockclient.py)",
+              "binascii.crc_hqx is a byte-wise fold (uninterpreted step function)",
+              "in BuRead, _retransmit is replaced by its own contract's summary (env BuStream)"],
+     not_decided=["'any corruption ends in an error' rests on the strength of CRC-16, not on this code",
+                  "the end-to-end claim for every value length and loss pattern is only covered by the bounded stand-in; "
+                  "timing of _retransmit's deadline loop"])
